@@ -33,7 +33,7 @@ CLAIMS = {
                 "the value of a named parameter and hence every column is invariant under a simultaneous permutation of the model's parameter list and the parameter vector (c16_perm_param, c16_perm_invariant), "
                 "parameters are returned unchanged (c16_params), functions without a derivative for index k contribute the zero column (c16_zero_column); every builder-made model equals its by-name specification (c16_refines_spec); "
                 "source-derived obligation re-checked on every run: the arity dispatch table extracted from src/basis_function/detail.rs passes params[t] to argument t for arities exactly 1..10 (c16_dispatch). "
-                "Tie: exact comparison of every entry of eval / eval_partial_deriv on position-sensitive integer probes, all arities 1..10, every ordered subset for small models, against the model AND against the by-name specification.",
+                "Tie: exact comparison of every entry of eval / eval_partial_deriv on position-sensitive integer probes, all arities 1..10, every ordered subset for small models, against the model AND against the by-name specification. TRAIT CONTRACT (Props/SepLawful.lean): whatever an accepted builder session returns, wrapped exactly like `impl SeparableNonlinearModel for SeparableModel`, is a Lawful model (sep_lawful) whose evaluation / derivative functions are the by-name specification (sep_evalF_spec); hence every end-to-end theorem about fits (C04, C06, C10, C11) holds for builder-made models without assumption (c04_e2e_builder).",
         "note": "Trusted: Lean kernel; Core/SepModel.lean + Core/ModelBuilder.lean transcriptions as validated by the exact probe stream; tools/extract_dispatch.py (regex extraction; if the source cannot be parsed the obligation is reported as skipped). "
                 "End-to-end refinement (c16_refines_spec): for every accepted call sequence and every parameter vector of the model's length, eval = specEval and eval_partial_deriv(k) = specDeriv k "
                 "(the by-name specification, including error outcomes), the model holds the last x / initial parameters given; the wrapper closure's two panic sites are unreachable (c16_no_wrapper_panic). "
@@ -43,7 +43,7 @@ CLAIMS = {
         "text": "Kernel-checked for EVERY model value, user-function semantics and argument: wrong parameter count is rejected with both lengths and leaves the model unchanged (c17_count, c17_rejected_state), "
                 "index >= P gives DerivativeIndexOutOfBounds (c17_index), successful evaluations have one column per basis function and one row per sample (c17_shape_eval, c17_shape_deriv), "
                 "a failing evaluation reports the error of the first failing column, a wrong length with expected and actual length (c17_wrong_len_eval, c17_len_error, mapCols_error). "
-                "Tie: misuse stream with exact comparison of values, error variants and payloads.",
+                "Tie: misuse stream with exact comparison of values, error variants and payloads. The matrix assembly over the columns never meets a wrongly shaped column list (sep_no_shape_error, Props/SepLawful.lean).",
         "note": "Trusted: Lean kernel; transcription of src/model/mod.rs (Core/SepModel.lean) as validated by the stream; panics of the Rust code are explicit outcomes of the model, their unreachability for builder-made models is c16_args_by_name.",
     },
     "C01": {
